@@ -51,6 +51,9 @@ func genWorld(rt *rapid.T, o worldOpts) World {
 		w.Spec.Strategy = rapid.SampledFrom([]int{4, 4, 5}).Draw(rt, "untypedKind")
 		w.Spec.Partition = int32(rapid.SampledFrom([]int{0, 1, 2, 3, 4}).Draw(rt, "untypedPartition"))
 	}
+	if o.untyped && !w.Spec.Parallel && rapid.IntRange(0, 7).Draw(rt, "policyOmitted") == 0 {
+		w.Spec.PolicyOmitted = true
+	}
 	w.Hist = genHist(rt)
 	if o.constructed > 0 && !(w.Spec.Strategy >= 4) && rapid.IntRange(0, 7).Draw(rt, "heldRollout") == 0 {
 		// a rollout held by the partition: pods at or above it updated and Ready, pods below it at the previous
@@ -230,7 +233,7 @@ func runC05(rep Rep, w World) {
 	}
 }
 
-var c05Opts = func() worldOpts { o := histOpts; o.forceOrdered = true; return o }()
+var c05Opts = func() worldOpts { o := histOpts; o.forceOrdered = true; o.untyped = true; return o }()
 
 func TestC05(t *testing.T) {
 	checkCases(t, "C05", func(rt *rapid.T) World { return genWorld(rt, c05Opts) }, runC05)
